@@ -2,9 +2,9 @@ use super::{Entry, Key};
 use core::hash::{BuildHasher, Hash};
 #[cfg(not(json_syntax_verif))]
 use hashbrown::hash_map::DefaultHashBuilder;
+use hashbrown::raw::RawTable;
 #[cfg(json_syntax_verif)]
 use verif::VerifHashBuilder as DefaultHashBuilder;
-use hashbrown::raw::RawTable;
 
 pub trait Equivalent<K: ?Sized> {
 	fn equivalent(&self, key: &K) -> bool;
